@@ -32,7 +32,7 @@ COMPONENTS = {"real": ["smpl_extract.actions.determine_image_type, alcohol/mdf, 
               "stub": ["SimFile for raw/2352/MDX; virtual FS for the two cue arms", "stdout captured", "sandboxed output"]}
 ASSUMPTIONS = ["the 2352 encoding pads the last sector's user data; MDX 'eof' = header + data length",
                "purely differential - the raw arm itself is validated by C01/C02"]
-EXPECTED_PROBES = ["akai", "roland", "size_not_multiple_of_2048", "mdf_partial_sector_reads", "audio_cue_is_cdda", "ls_leaf_compared"]
+EXPECTED_PROBES = ["akai", "roland", "size_not_multiple_of_2048", "mdf_partial_sector_reads", "audio_cue_is_cdda", "ls_leaf_compared", "trimmed_dump"]
 SHRINK = {"max_attempts": 60, "max_seconds": 120.0, "simple_values": {"policy": ["contiguous"]}}
 
 
@@ -41,8 +41,9 @@ def gen(rng: random.Random, tier: str, index: int) -> dict:
         m = gen_akai(rng, max_parts=2, max_vols=2, max_files=4, big=False)
         if rng.random() < 0.5:
             m["trailing"] = rng.choice([1, 17, 1000, 2047, 2049])
-        return {"fmt": "akai", "model": m}
-    return {"fmt": "roland", "model": gen_roland(rng, max_samples=4, max_perf=2, max_vols=2, max_clusters=2)}
+        # a dump that stops right after the last used byte: the final partial 2048-byte block then holds live data
+        return {"fmt": "akai", "model": m, "trim": rng.choice([None, None, 0, 1, 7, 300])}
+    return {"fmt": "roland", "model": gen_roland(rng, max_samples=4, max_perf=2, max_vols=2, max_clusters=2), "trim": rng.choice([None, 0, 1, 5])}
 
 
 def _paths(sc: dict):
@@ -125,6 +126,18 @@ def run(sc: dict) -> RunResult:
         img, lay = R.build(sc["model"])
     res.probes[sc["fmt"]] += 1
     nontrivial = False
+    if sc.get("trim") is not None:
+        if sc["fmt"] == "akai":
+            ends = [a + min(A.SECTOR, f.size - j * A.SECTOR) for _, _, f in lay.files() for j, a in enumerate(f.sectors_abs)]
+            ends += [a + A.SECTOR for p in lay.partitions for v in p.volumes for a in v.dir_abs] + [lay.partitions[-1].base + A.HDR_TOTAL] if lay.partitions else []
+        else:
+            ends = [R.DATA_FAT_OFF]
+            for sm, sl in zip(sc["model"]["samples"], lay.samples):
+                nb = 2 * sm["n"]
+                ends += [a + min(R.CL, nb - j * R.CL) for j, a in enumerate(sl.clusters_abs[sm.get("cluster_top", 0):])]
+        if ends:
+            img = img[:max(ends) + sc["trim"]]
+            res.probes["trimmed_dump"] += 1
     if len(img) % 2048:
         res.probes["size_not_multiple_of_2048"] += 1
         nontrivial = True
